@@ -19,6 +19,8 @@
 package didnuts
 
 import (
+	"crypto"
+	"crypto/ecdsa"
 	"encoding/json"
 	"errors"
 	"fmt"
@@ -77,6 +79,18 @@ func (v verificationMethodValidator) verifyThumbprint(method *did.VerificationMe
 	keyAsJWK, err := method.JWK()
 	if err != nil {
 		return fmt.Errorf("unable to get JWK: %w", err)
+	}
+	if keyAsJWK == nil {
+		return errors.New("unable to get JWK: publicKeyJwk is missing")
+	}
+	// The JWK parser does not check EC coordinates against the curve. Calculating the thumbprint of a key
+	// whose coordinates do not fit the curve panics, so make sure it actually is a public key first.
+	var publicKey crypto.PublicKey
+	if err = keyAsJWK.Raw(&publicKey); err != nil {
+		return fmt.Errorf("unable to get JWK: %w", err)
+	}
+	if ecKey, ok := publicKey.(*ecdsa.PublicKey); ok && !ecKey.Curve.IsOnCurve(ecKey.X, ecKey.Y) {
+		return errors.New("unable to get JWK: EC public key is not on the curve")
 	}
 	_ = jwk.AssignKeyID(keyAsJWK)
 	if keyAsJWK.KeyID() != method.ID.Fragment {
